@@ -269,7 +269,7 @@ func leaves() []tv {
 		mk("blob", RTBlob{}, RTBlob{D: []byte{}}, RTBlob{D: []byte(str(100))}, RTBlob{D: []byte(str(4000))}, RTBlob{D: []byte(str(4090))}, RTBlob{D: []byte(str(4096))}, RTBlob{D: []byte(str(5000))}, RTBlob{D: []byte(str(100000))}),
 		mk("blobmix", RTBlobMix{}, RTBlobMix{S: str(3900), B: RTBlob{D: []byte(str(200))}}, RTBlobMix{S: str(4000), B: RTBlob{D: []byte(str(200))}}, RTBlobMix{S: str(4080), B: RTBlob{D: []byte(str(200))}},
 			RTBlobMix{S: str(8100), B: RTBlob{D: []byte(str(200))}}, RTBlobMix{L: blobs(60, 100)}, RTBlobMix{S: "x", B: RTBlob{D: []byte("y")}, L: blobs(3, 2000)}),
-		mk("time", time.Time{}, time.Date(2024, 2, 29, 23, 59, 59, 999999999, time.UTC), time.Date(2024, 2, 29, 23, 59, 59, 1, time.FixedZone("X", 5*3600+1800)), time.Date(9999, 12, 31, 23, 59, 59, 0, time.UTC), time.Date(-100, 1, 1, 0, 0, 0, 0, time.UTC), time.Unix(0, 0)),
+		mk("time", time.Time{}, time.Date(2024, 2, 29, 23, 59, 59, 999999999, time.UTC), time.Date(2024, 2, 29, 23, 59, 59, 1, time.FixedZone("X", 5*3600+1800)), time.Date(1900, 1, 1, 12, 0, 0, 0, time.FixedZone("LMT", 19*60+32)), time.Date(2024, 6, 1, 0, 0, 0, 5, time.FixedZone("W", -(4*3600+56*60+2))), time.Date(9999, 12, 31, 23, 59, 59, 0, time.UTC), time.Date(-100, 1, 1, 0, 0, 0, 0, time.UTC), time.Unix(0, 0)),
 		mk("named", RTNamed(nil), RTNamed{}, RTNamed{1, -1}),
 		mk("namedstr", RTNamedStr(""), RTNamedStr(str(300))),
 		mk("mapnamed", RTMapNamed(nil), RTMapNamed{}, RTMapNamed{"a": nil, "verif_atom_a": {1}}),
@@ -378,12 +378,36 @@ func cacheConfigs() []cacheCfg {
 	full := cacheCfg{name: "all-caches"}
 	full.enc = edf.Options{AtomCache: h.makeEncodeAtomCache(local.AtomCache), RegCache: h.makeEncodeRegCache(local.RegCache), ErrCache: h.makeEncodeErrCache(local.ErrCache)}
 	full.dec = edf.Options{AtomCache: h.makeDecodeAtomCache(remote.AtomCache), RegCache: h.makeDecodeRegCache(remote.RegCache), ErrCache: h.makeDecodeErrCache(local.ErrCache, remote.ErrCache)}
+	// the peer's error table is not aligned with the local one: it registered one more error first, so every shared
+	// error has another id there (two nodes in one process always have identical tables - two programs do not)
+	shifted := map[uint16]error{}
+	min := uint16(65535)
+	for k := range local.ErrCache {
+		if k < min {
+			min = k
+		}
+	}
+	shifted[min] = errors.New("an error only the peer has registered")
+	for k, e := range local.ErrCache {
+		shifted[k+1] = e
+	}
+	b2 := lib.TakeBuffer()
+	if err := edf.Encode(MessageIntroduce{ErrCache: shifted}, b2, edf.Options{}); err != nil {
+		panic(err)
+	}
+	v2, _, err := edf.Decode(b2.B, edf.Options{})
+	if err != nil {
+		panic(err)
+	}
+	shiftedCfg := cacheCfg{name: "error-cache-shifted-ids", enc: edf.Options{ErrCache: h.makeEncodeErrCache(shifted)},
+		dec: edf.Options{ErrCache: h.makeDecodeErrCache(local.ErrCache, v2.(MessageIntroduce).ErrCache)}}
 	return []cacheCfg{
 		{name: "no-cache"},
 		full,
 		{name: "atom-cache", enc: edf.Options{AtomCache: full.enc.AtomCache}, dec: edf.Options{AtomCache: full.dec.AtomCache}},
 		{name: "type-cache", enc: edf.Options{RegCache: full.enc.RegCache}, dec: edf.Options{RegCache: full.dec.RegCache}},
 		{name: "error-cache", enc: edf.Options{ErrCache: full.enc.ErrCache}, dec: edf.Options{ErrCache: full.dec.ErrCache}},
+		shiftedCfg,
 	}
 }
 
@@ -452,9 +476,9 @@ func safeDecode(p []byte, o edf.Options) (v any, tail []byte, err error) {
 
 func init() {
 	registerAll()
-	for ci := 0; ci < 5; ci++ {
+	for ci := 0; ci < 6; ci++ {
 		ci := ci
-		names := []string{"no-cache", "all-caches", "atom-cache", "type-cache", "error-cache"}
+		names := []string{"no-cache", "all-caches", "atom-cache", "type-cache", "error-cache", "error-cache-shifted-ids"}
 		harn.Register(harn.Scenario{Property: "C11", Name: "roundtrip-" + names[ci], Run: func(c *harn.Ctx) *harn.Result {
 			r := harn.NewResult("enum")
 			cfg := cacheConfigs()[ci]
